@@ -64,6 +64,17 @@ Theorem C05_close_payload_legal : forall c evs, Forall ev_wf evs -> Forall close
 Proof. exact legal_run. Qed.
 Print Assumptions C05_close_payload_legal.
 
+(* ... and, independently of the code's own acceptance test: every code written is one that RFC 6455 7.4 / the IANA
+   registry allow on the wire (1000-1003, 1007-1014, 3000-4999).  The accepted intervals of onCloseFrame (echoed by
+   echoCloseCodeReason) are regenerated from its source on every run; [accepted_ranges_legal] re-checks them *)
+Theorem C05_close_codes_wire_legal : forall c evs, Forall ev_wf evs -> Forall wire_legal_out (snd (run c evs)).
+Proof. exact legal_run_wire. Qed.
+Print Assumptions C05_close_codes_wire_legal.
+
+Theorem C05_accepted_peer_codes_legal : forall cd, close_code_invalid cd = false -> wire_legal cd.
+Proof. exact accepted_code_wire_legal. Qed.
+Print Assumptions C05_accepted_peer_codes_legal.
+
 Theorem C05_internal_codes_allowed :
   In code_protocol_error close_codes_allowed /\ In code_invalid_payload close_codes_allowed /\ In code_normal close_codes_allowed.
 Proof. vm_compute. intuition. Qed.
@@ -89,7 +100,7 @@ Definition clean_report_is_peers (c : cfg) (evs : list event) : Prop :=
        onClose reports wasClean = True with the fields of neither frame *)
 Theorem C05_clean_iff_both_refuted_later_invalid : exists c evs, ~ clean_report_is_peers c evs.
 Proof.
-  exists (mkCfg Client false false 2000 1000 1000 0 0 12 true 0).
+  exists (mkCfg Client false false 2000 1000 1000 0 0 12 true 0 false).
   exists [EHandshake; EPeerClose (Some (1000, Some [111; 107])) []; EPeerClose (Some (999, None)) []; EOwnDrop].
   intro H. destruct (H 0 None None RNone) as (_ & pc & Hl & Hm).
   - vm_compute. auto 10.
@@ -102,7 +113,7 @@ Print Assumptions C05_clean_iff_both_refuted_later_invalid.
        onCloseFrame as an empty close, which completes the handshake we have just begun: onClose(True, None, None) *)
 Theorem C05_clean_iff_both_refuted_one_octet : exists c evs, ~ clean_report_is_peers c evs.
 Proof.
-  exists (mkCfg Server false false 2000 1000 0 0 0 12 true 0).
+  exists (mkCfg Server false false 2000 1000 0 0 0 12 true 0 false).
   exists [EHandshake; EPeerClose1 []; EOwnDrop].
   intro H. destruct (H 0 None None RNone) as (_ & pc & Hl & Hm).
   - vm_compute. auto 10.
@@ -129,7 +140,7 @@ Print Assumptions C05_clean_valid_frame_exact.
 (* the 1-octet close payload (key onCloseFrame/1-octet-peer-close-reported-clean): failed with 1002 by the header
    check, then handed to onCloseFrame as an empty close, which completes the handshake we have just begun *)
 Example C05_witness_one_octet_close_reported_clean :
-  let c := mkCfg Server false false 2000 1000 0 0 0 12 true 0 in
+  let c := mkCfg Server false false 2000 1000 0 0 0 12 true 0 false in
   snd (run c [EHandshake; EPeerClose1 []; EOwnDrop]) =
   [(0, WHttp); (0, CbOpen); (0, IsOpen); (0, WClose OFail (Some 1002) (Some [])); (0, IsClosed); (0, Abort);
    (0, CbClose true None None RNone)].
@@ -165,7 +176,7 @@ Print Assumptions C05_tick_fair.
 
 (* the repaired paths: a reserved close code no longer completes the handshake it provokes ... *)
 Example C05_witness_invalid_close_not_clean :
-  let c := mkCfg Server false false 2000 1000 0 0 0 12 true 0 in
+  let c := mkCfg Server false false 2000 1000 0 0 0 12 true 0 false in
   snd (run c [EHandshake; EPeerClose (Some (999, None)) []; ETick 1000; EOwnDrop]) =
   [(0, WHttp); (0, CbOpen); (0, IsOpen); (0, WClose OFail (Some 1002) (Some [])); (1000, IsClosed); (1000, Abort);
    (1000, CbClose false (Some 1006) None RCloseTO)].
@@ -174,7 +185,7 @@ Proof. vm_compute. reflexivity. Qed.
 (* ... and a client that has answered the peer's close frame drops the connection itself after
    serverConnectionDropTimeout (was finding F-C05-1: stayed CLOSING for ever) *)
 Example C05_witness_client_reply_bounded :
-  let c := mkCfg Client false false 2000 1000 2000 0 0 12 true 0 in
+  let c := mkCfg Client false false 2000 1000 2000 0 0 12 true 0 false in
   snd (run c [EHandshake; EPeerClose (Some (1000, None)) []; ETick 1999; ETick 2000; EOwnDrop]) =
   [(0, WHttp); (0, CbOpen); (0, IsOpen); (0, WClose OReply (Some 1000) None); (2000, IsClosed); (2000, Abort);
    (2000, CbClose false (Some 1006) None RDropTO)].
@@ -182,7 +193,7 @@ Proof. vm_compute. reflexivity. Qed.
 
 (* with the timeout disabled (0) closing is unbounded by design: nothing is armed *)
 Example C05_unbounded_when_disabled :
-  let c := mkCfg Server false false 2000 0 0 0 0 12 true 0 in
+  let c := mkCfg Server false false 2000 0 0 0 0 12 true 0 false in
   st (fst (run c [EHandshake; ESendClose (Some 1000) None; ETick 1000000])) = CLOSING.
 Proof. vm_compute. reflexivity. Qed.
 
@@ -203,7 +214,7 @@ Print Assumptions C05_send_message_not_open.
 
 (* ---- non-vacuity: concrete runs ---- *)
 Example C05_witness_clean_close :
-  let c := mkCfg Server true false 2000 1000 0 0 0 12 true 0 in
+  let c := mkCfg Server true false 2000 1000 0 0 0 12 true 0 false in
   snd (run c [EHandshake; EPeerClose (Some (1000, Some [111; 107])) []; EOwnDrop]) =
   [(0, WHttp); (0, CbOpen); (0, IsOpen); (0, WClose OReply (Some 1000) None); (0, IsClosed); (0, Lose);
    (0, CbClose true (Some 1000) (Some [111; 107]) RNone)].
@@ -218,8 +229,17 @@ Proof. vm_compute. auto. Qed.
 
 (* after onClose: sendMessage raises, a stray tick and peer octets change nothing *)
 Example C05_witness_after_close :
-  let c := mkCfg Client false false 2000 1000 1000 0 0 12 true 0 in
+  let c := mkCfg Client false false 2000 1000 1000 0 0 12 true 0 false in
   let r1 := run c [EHandshake; ESendClose (Some 1000) None; EPeerDrop false] in
   let r2 := run c [EHandshake; ESendClose (Some 1000) None; EPeerDrop false; ESendMessage; ETick 9000; EPeerData; ESendClose None None] in
   gone (fst r1) = true /\ snd r2 = snd r1 ++ [(0, Raised ExDisconnected)].
+Proof. vm_compute. auto. Qed.
+
+(* echoCloseCodeReason: 4999 is echoed, 5000 is rejected with 1002 *)
+Example C05_witness_echo_boundary :
+  let c := mkCfg Server false true 2000 1000 0 0 0 12 true 0 false in
+  snd (run c [EHandshake; EPeerClose (Some (4999, None)) []]) =
+    [(0, WHttp); (0, CbOpen); (0, IsOpen); (0, WClose OReply (Some 4999) None); (0, IsClosed); (0, Lose)] /\
+  snd (run c [EHandshake; EPeerClose (Some (5000, None)) []]) =
+    [(0, WHttp); (0, CbOpen); (0, IsOpen); (0, WClose OFail (Some 1002) (Some []))].
 Proof. vm_compute. auto. Qed.
